@@ -4,7 +4,8 @@ random trivia at every soft boundary, optional ';' after END_IF."""
 
 TRIVIA = [" ", "  ", "\t", "\n", "\r\n", " \n ", "\n\n", " (* c *) ", "(* c *)", " (* multi\nline *) ",
           "(* ( *)", " (* ) *) ", "(* * *)", " (* a (* b *) ", "(*x*)(*y*)", " (* café ü *) ", "\n\t(* - *)\n",
-          " (**) ", "\t \t", "(***)", " (* x **) ", "(* a * b *)", " (*) x *) "]
+          " (**) ", "\t \t", "(***)", " (* x **) ", "(* a * b *)", " (*) x *) ",
+          " (* mehr\nzeilig ü€ *) ", "   (* ü\r\n é日本 *) ", "\n  (* a\n\n  b é *)"]
 TRIVIA_FF = ["\f", " \f "]
 
 
